@@ -128,6 +128,64 @@ def rule_traversal_completeness(ctx, rep, rid: str) -> None:
                         rep.ok(rid, key)
 
 
+def _class_table(ctx, f: Func, name: str) -> Optional[List[str]]:
+    """Members of a module-level (or class-level) tuple of node classes."""
+    for n in f.module.tree.body:
+        if isinstance(n, ast.Assign) and any(isinstance(t, ast.Name) and t.id == name for t in n.targets) and isinstance(n.value, (ast.Tuple, ast.List)):
+            return [norm(e) for e in n.value.elts]
+    return None
+
+
+def rule_filtered_walks_complete(ctx, rep, rid: str) -> None:
+    """A traversal whose generic branch only follows children that are instances of a class table (`isinstance(value,
+    _COMPOUND_STATEMENTS)`) stops at every class the table leaves out.  For each class the generic branch walks, a
+    child field whose declared type is a specific node class K (not the open `Node`) that can itself hold nodes is a
+    link of the tree the walk is meant to follow: K has to be in the table or have a branch of its own, else
+    everything below it is invisible (SwitchStatement.cases: List[SwitchCase] -> the statements of every case)."""
+    rep.rule(rid, "a traversal that follows only children belonging to a class table has, for every class its generic branch walks, each specifically typed container child (a declared node class that can hold further nodes) in the table or in a branch of its own: the walk does not stop above statements it is meant to reach", floor=0)
+    schema = node_schema(ctx)
+    n = 0
+    for f in ctx.tree.funcs:
+        if f.module.name != "compiler" or isinstance(f.node, ast.Lambda):
+            continue
+        params = [p for p in f.params() if p != "self"]
+        if not params:
+            continue
+        var = params[0]
+        if not any(isinstance(x, ast.Attribute) and x.attr == "__dict__" and isinstance(x.value, ast.Name) and x.value.id == var for x in f.own_nodes()):
+            continue
+        # filters applied to the children in the generic branch
+        tables = set()
+        for c in f.own_nodes():
+            if isinstance(c, ast.Call) and norm(c.func) == "isinstance" and len(c.args) == 2 and isinstance(c.args[1], ast.Name) and isinstance(c.args[0], ast.Name) and c.args[0].id != var:
+                members = _class_table(ctx, f, c.args[1].id)
+                if members and all(m in schema for m in members):
+                    tables.add(c.args[1].id)
+        for tname in sorted(tables):
+            members = set(_class_table(ctx, f, tname))
+            explicit = set()
+            for x in f.own_nodes():
+                if isinstance(x, ast.If):
+                    for cname in emit._isinstance_classes(x.test, var):
+                        explicit.add(cname)
+            walked = members - explicit
+            for cls in sorted(walked):
+                for field, ann in schema.get(cls, {}).items():
+                    toks = [t for t in re.findall(r"[A-Za-z_]+", ann) if t in schema and t not in ("Node", "SourceLocation")]
+                    for k in toks:
+                        if k in FUNC_CLASSES:
+                            continue
+                        if not child_fields(schema, k, False):
+                            continue  # a leaf (Identifier): nothing below it
+                        n += 1
+                        key = f"{f.qual}:{tname}:{cls}.{field}->{k}"
+                        if k in members or k in explicit:
+                            rep.ok(rid, key)
+                        else:
+                            rep.bad(rid, key, f"{f.qual} follows only children that are instances of {tname}; {cls}.{field} is declared to hold {k}, which can hold further nodes ({', '.join(child_fields(schema, k, False))}) but is neither in the table nor handled by a branch: the walk stops there and nothing below a {k} is seen (a `var` in a switch case is not hoisted and is captured by value)", f"{f.module.rel}:{f.line}")
+    rep.ok(rid, "filtered-walks", {"links_examined": n})
+
+
 def rule_lowering_exhaustive(ctx, rep, rid: str) -> None:
     rep.rule(rid, "every AST node class the parser can construct has a branch in the statement or expression compiler, or is consumed structurally by its parent's branch", floor=40)
     schema = node_schema(ctx)
